@@ -59,12 +59,20 @@ TimesRoot(f, g, r) == LET n == Len(g) IN
    TLCEval([i \in 1..n+1 |-> (IF i <= n THEN g[i] ELSE 0) ^^ (IF i >= 2 THEN Mul(f, g[i-1], r) ELSE 0)])
 RECURSIVE GenPoly(_,_,_,_)
 GenPoly(f, i, d, g) == IF i > d THEN g ELSE GenPoly(f, i+1, d, TimesRoot(f, g, f.ex[(i % f.n) + 1]))
-RECURSIVE PolyRem(_,_,_,_,_)
-PolyRem(f, data, i, reg, g) == IF i > Len(data) THEN reg
-   ELSE LET fb == data[i] ^^ reg[1]  n == Len(reg)
-        IN PolyRem(f, data, i+1, TLCEval([k \in 1..n |-> (IF k < n THEN reg[k+1] ELSE 0) ^^ Mul(f, fb, g[k+1])]), g)
-\* the r check words of the systematic codeword data \o parity (remainder of data * x^r divided by g)
-Parity(f, data, r) == IF r = 0 THEN <<>> ELSE PolyRem(f, data, 1, [k \in 1..r |-> 0], GenPoly(f, 1, r, <<1>>))
+\* remainder of data(x) * x^r modulo g by long division.  One division step: the register (with a 0 appended) is shifted
+\* and fb * g is subtracted; the products are taken through the log table (ex2 = powers of alpha, twice over, 1-based;
+\* glog[k] = 1 + log g[k+1]; lfb = log fb) - kept to few operations because it runs (data words) x (check words) times.
+DivStep(regx, lfb, glog, ex2, n) == TLCEval([k \in 1..n |-> regx[k+1] ^^ ex2[lfb + glog[k]]])
+RECURSIVE PolyRem(_,_,_,_,_,_)
+PolyRem(ex2, lg, data, i, reg, glog) == IF i > Len(data) THEN reg
+   ELSE LET fb == data[i] ^^ reg[1] IN
+        IF fb = 0 THEN PolyRem(ex2, lg, data, i+1, Tail(reg) \o <<0>>, glog)
+        ELSE PolyRem(ex2, lg, data, i+1, DivStep(reg \o <<0>>, lg[fb], glog, ex2, Len(reg)), glog)
+\* the r check words of the systematic codeword data \o parity
+Parity(f, data, r) == IF r = 0 THEN <<>>
+   ELSE LET g == GenPoly(f, 1, r, <<1>>) IN
+        IF \E k \in 1..r+1 : g[k] = 0 THEN Assert(FALSE, "generator polynomial with a zero coefficient")
+        ELSE PolyRem(f.ex \o f.ex, f.lg, data, 1, [k \in 1..r |-> 0], TLCEval([k \in 1..r |-> 1 + f.lg[g[k+1]]]))
 RECURSIVE Horner(_,_,_,_,_)
 Horner(f, cw, x, i, acc) == IF i > Len(cw) THEN acc ELSE Horner(f, cw, x, i+1, Mul(f, acc, x) ^^ cw[i])
 \* cw is a codeword of the (n, n-r) code iff it vanishes at alpha^1..alpha^r
@@ -176,7 +184,8 @@ RECURSIVE StuffW(_,_,_,_)
 StuffW(bits, i, ws, out) ==       \* i bits consumed; result: sequence of codewords
   LET n == Len(bits) IN
   IF i >= n THEN out
-  ELSE LET head == ValAt([j \in 1..ws-1 |-> IF i + j > n THEN 1 ELSE bits[i+j]], 1, ws-1, 0) IN
+  ELSE LET head == IF i + ws - 1 <= n THEN ValAt(bits, i+1, ws-1, 0)
+                   ELSE ValAt([j \in 1..ws-1 |-> IF i + j > n THEN 1 ELSE bits[i+j]], 1, ws-1, 0) IN
        IF head = 0 THEN StuffW(bits, i + ws - 1, ws, Append(out, 1))
        ELSE IF head = (2^(ws-1)) - 1 THEN StuffW(bits, i + ws - 1, ws, Append(out, (2^ws) - 2))
        ELSE StuffW(bits, i + ws, ws, Append(out, (head*2) + (IF i + ws > n THEN 1 ELSE bits[i+ws])))
